@@ -241,11 +241,16 @@ def metaEnv (cls : Cls) (t : Tables) (regsR regsS : String → Option Val) :
           | some d => rulesOK (name :: visR) visS cls.rules d
       | _ => rulesOK visR visS cls.rules v
     -- a field mapping: every field is validated by the rules for unknown fields
+    -- fields given by reference are replaced by their definitions; a reference whose definition is being
+    -- checked further up is left out, and the others are "known" while the mapping is checked
     let fieldsOK (vs : List String) (fields : List (Key × Val)) : List String :=
-      let doc := fields.map (fun kv => match kv.2 with
-        | .str name => (kv.1, (regsR name).getD .none)
-        | _ => kv)
-      verdict (validate0 (sub visR vs) t n
+      let doc := fields.filterMap (fun kv => match kv.2 with
+        | .str name => if visR.contains name then none else some (kv.1, (regsR name).getD .none)
+        | _ => some kv)
+      let fresh := fields.filterMap (fun kv => match kv.2 with
+        | .str name => if visR.contains name then none else some name
+        | _ => none)
+      verdict (validate0 (sub (fresh ++ visR) vs) t n
                  { cfg := { allowUnknown := validationSchema cls }, isChild := true }
                  (.dict []) (.dict doc) false)
     let schemaCheck (v : Val) : List String :=
